@@ -6,7 +6,7 @@ def main(tier, args):
     exe = vf.build("C16/hsm", [vf.VERIF + "/checks/C16/harness.cpp"], vf.module_sources("flow/state_machine.cpp"),
                    mode="asan", plain_srcs=[vf.VERIF + "/engine/sched/log_stub.cpp"])
     # (machine cap, call-sequence depth, max nesting depth, deadline s)
-    cap, depth, nest, dl = (20000, 5, 2, 45) if tier == "quick" else (400000, 7, 3, 1100)
+    cap, depth, nest, dl = (20000, 5, 2, 45) if tier == "quick" else (250000, 7, 3, 1100)
     dl = int(os.environ.get("VERIF_DEADLINE_S", dl))
     res = vf.Result(); log = open(vf.BUILD + "/C16/log.txt", "w")
     for f in glob.glob(vf.BUILD + "/C16/hashes_*.bin"):
